@@ -77,6 +77,7 @@ PInit(k) ==
    rcvd |-> [s \in Sid |-> 0], sHdr |-> [s \in Sid |-> FALSE], hst |-> [s \in Sid |-> FALSE],
    mine |-> [s \in Sid |-> TRUE],
    hclosed |-> [s \in Sid |-> FALSE],   \* the handler closed the request body (Request.Body.Close)
+   grace |-> 0,            \* stream whose RST_STREAM was sent while server frames for it were in flight
    compliant |-> TRUE,     \* the client has never sent DATA beyond a window it held
    stim |-> NoStim, got |-> {}, acks |-> 0, pongs |-> {}, hold |-> E0,
    dead |-> FALSE, viol |-> {}]
@@ -185,7 +186,9 @@ PRst(p, e) ==
   ELSE IF st = "closed" THEN
     IF Why(p, s) = "rej" THEN Begin(p, [Stim(e, "closed-rej", {OK}) EXCEPT !.gray = TRUE])
     ELSE Begin(p, Stim(e, "closed", {OK}))
-  ELSE Begin(CloseP(p, s, "crst"), Stim(e, st, {OK}))
+  \* op = "inflight": the RST_STREAM is not sent at a quiescent point (the client had stopped
+  \* reading): frames of this stream the server wrote before it saw the RST_STREAM still arrive
+  ELSE Begin([CloseP(p, s, "crst") EXCEPT !.grace = IF e.op = "inflight" THEN s ELSE 0], Stim(e, st, {OK}))
 
 PWu(p, e) ==
   LET s == e.s  st == Ph(p, s) IN
@@ -269,7 +272,9 @@ ServerEnd(p, s) ==      \* the server sent END_STREAM on s
 
 PSData(p, e) ==
   LET s == e.s IN
-  IF s \notin Sid \/ p.ph[s] \notin {"open", "hcr"} THEN V(p, "SendAfterEnd", s, e.k)
+  IF s \in Sid /\ p.grace = s /\ p.ph[s] = "closed" THEN
+    [p EXCEPT !.osw[s] = @ - e.n, !.ocw = @ - e.n, !.rcvd[s] = @ + (e.n - e.p)]
+  ELSE IF s \notin Sid \/ p.ph[s] \notin {"open", "hcr"} THEN V(p, "SendAfterEnd", s, e.k)
   ELSE
     LET p1 == IF ~p.sHdr[s] THEN V(p, "DataBeforeHeaders", s, "") ELSE p
         w == p.osw[s] + (EffIws(p) - p.iws)
@@ -284,7 +289,8 @@ PSData(p, e) ==
 
 PSHeaders(p, e) ==
   LET s == e.s IN
-  IF s \notin Sid \/ p.ph[s] \notin {"open", "hcr"} THEN V(p, "SendAfterEnd", s, e.k)
+  IF s \in Sid /\ p.grace = s /\ p.ph[s] = "closed" THEN p
+  ELSE IF s \notin Sid \/ p.ph[s] \notin {"open", "hcr"} THEN V(p, "SendAfterEnd", s, e.k)
   ELSE
     LET p1 == IF e.code >= 100 /\ e.code < 200 THEN p ELSE [p EXCEPT !.sHdr[s] = TRUE] IN
     IF e.es THEN ServerEnd(p1, s) ELSE p1
@@ -380,5 +386,5 @@ PQuiesce(p, e) ==
               THEN V(p4, "Replenished", CHOOSE s \in badS : TRUE, <<"stream">>) ELSE p4 IN
     \* after excess DATA the client's view of the connection window is no longer exact (6.9):
     \* the answer to that frame is judged, the rest of the connection is not
-    [p5 EXCEPT !.dead = ended \/ ~p.compliant, !.stim = NoStim, !.got = {}]
+    [p5 EXCEPT !.dead = ended \/ ~p.compliant, !.stim = NoStim, !.got = {}, !.grace = 0]
 =============================================================================
